@@ -71,6 +71,7 @@ where
     let start = std::time::Instant::now();
     let n_total = if ctx.scale == 1.0 { n_total } else { ((n_total as f64 * ctx.scale).ceil() as u64).max(1) };
     let secs = secs * ctx.scale.min(1.0);
+    ctx.progress(sub);
     crate::util::par(threads, |t, r| {
         let per = (n_total + threads as u64 - 1) / threads as u64;
         let mut i = 0u64;
